@@ -99,8 +99,15 @@ pub fn eval(case: &Case) -> Verdict {
     }
 }
 
-fn offsets_for(r: &Row, seed: u64, idx: u64, small: bool) -> Vec<i32> {
+pub fn offsets_for(r: &Row, seed: u64, idx: u64, small: bool) -> Vec<i32> {
     let mut v: Vec<i32> = if small { (-13..=13).collect() } else { (-40..=40).collect() };
+    if small && r.d >= 29 {
+        // the Timestamp / OracleDate copies: every whole-year offset within +-110 years
+        for j in 2..=110i32 {
+            v.push(12 * j);
+            v.push(-12 * j);
+        }
+    }
     if !small && r.d >= 29 {
         // month ends: every offset within +-100 years (whole 4-year / 100-year cycles included)
         v.extend(41..=1212);
